@@ -112,7 +112,7 @@ func verifDecodeOne(c verifSpecCase, src string) (msg string) {
 }
 
 func TestVerifReplayDecode(t *testing.T) {
-	contents := []string{`a = "s"`, `a = true`, `a = [1]`, `a = {k = 1}`, ``}
+	contents := []string{`a = "s"`, `a = true`, `a = [1]`, `a = {k = 1}`, ``, `a = nope`}
 	n := 0
 	seenKey := map[string]bool{}
 	for _, c := range verifSpecs() {
@@ -153,5 +153,5 @@ func TestVerifReplayDecode(t *testing.T) {
 		}
 		rec(nil)
 	}
-	fmt.Printf("STANDIN inputs=%d bound=\"every body of at most 3 blocks from a 5-content alphabet against 30 block specifications (list, set, tuple, single, map and object with 1..3 labels; string, dynamic and object-with-dynamic nested)\"\n", n)
+	fmt.Printf("STANDIN inputs=%d bound=\"every body of at most 3 blocks from a 6-content alphabet (incl. an expression that fails to evaluate) against 30 block specifications (list, set, tuple, single, map and object with 1..3 labels; string, dynamic and object-with-dynamic nested)\"\n", n)
 }
